@@ -479,7 +479,13 @@ def plan(tier, seed):
                 for (lf, rf) in FORM_PAIRS:
                     hs.append(gen_bin_l2_accept(lib, t, lf, rf, 0, q))
                 for k in range(len(REJECT_SHAPES)):
-                    hs.append(gen_bin_l2_reject(lib, t, k, q))
+                    # the equal-form shape mismatches (vd/vd, rd/rd, md/md: the first four REJECT_SHAPES and one md/md case) are in
+                    # the quick tier for one operator per crate whose kernels zip the operands (nalgebra's own shape asserts, which
+                    # guard + and -, do not help there): reverting the shape checks of the dispatch arms must be noticed by `quick`
+                    rq = q
+                    if n == 0 and lib in ("Mul", "GT", "And") and k in (0, 2, 3, 4):
+                        rq = "quick"
+                    hs.append(gen_bin_l2_reject(lib, t, k, rq))
     return {
         "harnesses": hs,
         "extracted": extracted,
